@@ -75,7 +75,8 @@ class NetMask(Resource):
     def make_netmask(cls, string: str | int, afi: AFI) -> NetMask:
         if afi == AFI.ipv4:
             if isinstance(string, str) and string in cls.codes:
-                klass = cls(cls.codes[string])
+                # not cls(value): Resource caches one instance per value and `maximum` depends on the family
+                klass = int.__new__(cls, cls.codes[string])
                 klass.maximum = 32
                 return klass
             maximum = 32
@@ -93,6 +94,6 @@ class NetMask(Resource):
         if value < 0 or value > maximum:
             raise ValueError('invalid netmask {}'.format(string))
 
-        klass = cls(value)
+        klass = int.__new__(cls, value)
         klass.maximum = maximum
         return klass
